@@ -260,6 +260,9 @@ class SamplerCore:
 
         # Add sampler metadata
         d["random_state"] = self.config.random_state
+        # position of the process-wide numpy stream, so that a resumed run continues the
+        # stream instead of starting it again from the seed
+        d["rng_state"] = np.random.get_state()
         d["n_total"] = getattr(self, "n_total", None)
         d["logz_err"] = getattr(self, "logz_err", None)
 
@@ -321,8 +324,13 @@ class SamplerCore:
         if "logz_err" in d:
             self.logz_err = d["logz_err"]
 
-        # Set random seed
-        if "random_state" in d and d["random_state"] is not None:
+        # Continue the random stream where the checkpoint left it. Re-seeding with
+        # random_state here made every resumed run replay the draws of the first
+        # iterations of the original run; only checkpoints written before the stream
+        # position was stored fall back to the seed.
+        if d.get("rng_state") is not None:
+            np.random.set_state(d["rng_state"])
+        elif "random_state" in d and d["random_state"] is not None:
             np.random.seed(d["random_state"])
 
     def _log_like(self, x):
